@@ -9,7 +9,7 @@
          (and of the abstract specification) producing exactly the observed results, and the order
          respects real time (no operation is placed after one that was invoked after it returned). *)
 From FunV Require Import Base.Tac Model.DequeHeap.
-From Coq Require Import Floats.
+From Coq Require Import PrimFloat.
 Local Open Scope Z_scope.
 
 Inductive case :=
